@@ -49,6 +49,18 @@ theorem iterOccupancy_spec (emp : π → Bool) (f : Fib κ π) :
     strip (iterRange emp none none none f) = f.filter (fun x => !emp x.2) := by
   rw [iterRange_strip, rangeLoop_none]
 
+/-- **`reversed(fiber)`** (and `reversed(tensor)`, which forwards to the root): every stored element,
+    its own payload at its own position, in reversed storage order. -/
+theorem reversed_spec (f : Fib κ π) :
+    strip (reversedIter f) = f.reverse ∧
+    ∀ c i p, (c, (i, p)) ∈ reversedIter f → f[i]? = some (c, p) := by
+  refine ⟨?_, ?_⟩
+  · unfold reversedIter strip
+    rw [List.map_reverse]
+    exact congrArg List.reverse (strip_withPos f)
+  · intro c i p h
+    exact mem_withPos (List.mem_reverse.1 h)
+
 end range
 
 /-- on trees: default iteration of a compressed rank presents `present` (the notion C04, C05
